@@ -276,7 +276,7 @@ def make_script(rng, name, kind=None, plan=None, nkeys=None, length=None, clone_
                 # make the armed operation one that actually runs the armed callback
                 if rng.random() < 0.7:
                     tgt = {"droppanic_nth": ["retain", "clear", "drain", "dropmap", "withcap", "ins_present", "rem_present", "extend", "intoiter"],
-                           "predpanic_nth": ["retain", "extractif"],
+                           "predpanic_nth": ["retain", "extractif", "entry_and_modify"],
                            "eqpanic_nth": ["ins_present", "rem_present", "get_present", "entry_insert", "entry_remove"],
                            "hashpanic_nth": ["ins_absent", "ins_absent", "reserve", "entry_or_insert", "shrinktofit", "extend", "tryinsert"],
                            "hashpanic_key": ["ins_absent", "reserve", "shrinktofit"]}.get(a)
@@ -365,6 +365,18 @@ def make_churn_script(rng, name, table=False, length=None):
             i = 0 if style == "fifo" else len(present) - 1 if style == "lifo" else rng.randrange(len(present))
             k = present.pop(i)
             lines.append(f"tfindentryremove {k} id {k}" if table else rng.choice([f"remove {k}", f"removeentry {k}"]))
+        if present and rng.random() < 0.12:
+            # an update in place of a live element (the live size does not change): through the entry
+            # closures that take the element out and put it back, get_mut, overwrite, remove + re-insert
+            k = rng.choice(present)
+            stamp += 1
+            if table:
+                lines.append(rng.choice([f"tremovereinsert {k} id {k} {stamp} {stamp % 97}", f"tfindmut {k} id {k} {stamp % 97}"]))
+            else:
+                lines.append(rng.choice([f"entry_replace {k} {stamp} some {stamp % 97}", f"entry_and_replace {k} {stamp} some {stamp % 97}",
+                                         f"raw_replace {k} {stamp} some {stamp % 97}", f"raw_and_replace {k} {stamp} some {stamp % 97}",
+                                         f"entry_and_modify {k} {stamp} 1 0", f"getmut {k} {stamp % 97}", f"insert {k} {stamp} {stamp % 97}",
+                                         f"entry_insert {k} {stamp} {stamp % 97}"]))
         if step % 50 == 49:
             lines.append(("tfind {0} id {0}" if table else "get {0}").format(nkeys + 1))      # absent key in a tombstone-laden table
     return f"=== {name} plan={plan} live={live}\n" + "\n".join(lines) + "\n"
@@ -534,6 +546,7 @@ FAULT_MATRIX = [
     ("droppanic_nth", "ins_present"), ("droppanic_nth", "rem_present"), ("droppanic_nth", "intoiter"), ("droppanic_nth", "withcap"),
     ("droppanic_nth", "extend_present"), ("droppanic_nth", "o_clone_from"),
     ("predpanic_nth", "retain"), ("predpanic_nth", "extractif"),
+    ("predpanic_nth", "entry_closure"), ("predpanic_nth", "entry_closure"), ("predpanic_nth", "foldconsumer"),
     ("eqpanic_nth", "ins_present"), ("eqpanic_nth", "rem_present"), ("eqpanic_nth", "get_present"), ("eqpanic_nth", "entry_present"),
     ("hashpanic_nth", "ins_absent"), ("hashpanic_nth", "reserve"), ("hashpanic_nth", "entry_absent"), ("hashpanic_nth", "shrinktofit"),
     ("hashpanic_nth", "extend_absent"), ("hashpanic_nth", "ins_absent_full"), ("hashpanic_nth", "rentry_absent_full"),
@@ -569,7 +582,10 @@ def make_fault_matrix_script(rng, name, kind=None):
             for k in rng.sample(range(60), 5):
                 g.op_insert(k)
         kth = rng.choice([0, 0, 1, 1, 2, 3, 5])
-        g.emit(f"arm {arm} {kth}")
+        if op == "entry_closure":
+            kth = 0
+        if op != "foldconsumer":
+            g.emit(f"arm {arm} {kth}")
         pres = g.present() if g.contents else 0
         ab = g.absent()
         ab = ab if ab is not None else 63
@@ -597,6 +613,13 @@ def make_fault_matrix_script(rng, name, kind=None):
             g.emit(rng.choice([f"entry_insert {pres} {g.st()} {g.val()}", f"entry_remove {pres} {g.st()}", f"entry_or_insert {pres} {g.st()} {g.val()}"]))
         elif op in ("ins_absent", "ins_absent_full"):
             g.emit(f"insert {ab} {g.st()} {g.val()}")
+        elif op == "entry_closure":
+            # the closure handed to an entry method panics (it owns the value it was given)
+            g.emit(rng.choice([f"entry_replace {pres} {g.st()} some {g.val()}", f"entry_replace {pres} {g.st()} none 0",
+                               f"entry_and_replace {pres} {g.st()} some {g.val()}", f"raw_replace {pres} {g.st()} some {g.val()}",
+                               f"raw_and_replace {pres} {g.st()} none 0", f"entry_and_modify {pres} {g.st()} 1 {g.val()}"]))
+        elif op == "foldconsumer":
+            g.emit(f"{rng.choice(['intoiter', 'intokeys', 'intovalues', 'drain'])}fold {rng.choice([0, 1])} {kth}")
         elif op == "entry_absent":
             g.emit(rng.choice([f"entry_or_insert {ab} {g.st()} {g.val()}", f"entry_insert {ab} {g.st()} {g.val()}", f"tryinsert {ab} {g.st()} {g.val()}"]))
         elif op == "rentry_absent_full":
